@@ -12,6 +12,7 @@ func init() {
 			"ERR-PROP: tokenizer/regex/number/duration errors in the parser reach failure exits; Parse rejects trailing tokens",
 			"FE-CLASS: scanSpace skips space, tab, CR, LF",
 			"CH-MAP: BinOp.Precedence level order (shared with C13)",
+			"CH-MAP: ScanUnit suffix table (bytes vs duration, m is minutes); PV-FIRST: duplicate label_format target / regexp capture rejected; PV-API: strings unquoted once",
 		},
 		NotDecided: []string{"acceptance of the whole grammar / independence from layout, comments and redundant parentheses beyond the look-ahead rule", "and/or precedence inside label predicates", "numeric literal values, string unquoting (strutil.Unquote), duration/bytes literal values"},
 		Rules: func(r *Run) {
@@ -22,6 +23,8 @@ func init() {
 			ruleValidateTables(r)
 			ruleParserErrProp(r)
 			rulePrecedenceTable(r)
+			ruleScanUnit(r)
+			ruleParserUniqueness(r)
 		},
 	})
 }
